@@ -129,4 +129,74 @@ def pstep (s : PState) : PEv → PState
 
 def prun (evs : List PEv) : PState := evs.foldl pstep {}
 
+/-! ## Both directions at the same time: the copy buffers, and writes that are consumed piece by piece
+
+`pipe` obtains its buffer INSIDE the goroutine (`buf := pool.Get(BufferSize)`, put back by a deferred `pool.Put`),
+so each direction copies through a buffer of its own. A `Read(buf)` stores the chunk at the start of the
+direction's buffer; `Write(buf[0:nr])` hands that very memory to the destination, which (a synchronous pipe, a
+flow-controlled stream, a slow peer) consumes it piece by piece, looking at the memory at the moment it takes
+each piece, while the opposite direction keeps running. -/
+
+inductive Dir where
+  | ab      -- reads stream X (side A), writes stream Y
+  | ba      -- reads stream Y (side B), writes stream X
+deriving DecidableEq, Repr
+
+/-- `BufferSize = 1024 * 16` -/
+def bufferSize : Nat := 16384
+
+/-- which buffer a direction copies through: each `pipe` goroutine holds its own `pool.Get` result -/
+def codeBufOf : Dir → Nat
+  | .ab => 0
+  | .ba => 1
+
+/-- one direction of a running `Pipe` -/
+structure Half where
+  taken : List Nat := []        -- bytes returned by the source's `Read` calls so far, in order
+  delivered : List Nat := []    -- bytes the destination has consumed so far, in order
+  off : Nat := 0                -- `Write(buf[0:nr])` in flight: the destination has consumed `buf[0:off]`
+  nr : Nat := 0                 -- (`off = nr`: no write in flight, the copier is at / in `Read`)
+deriving DecidableEq, Repr
+
+structure DState where
+  mem : Nat → List Nat          -- buffer id ↦ current content of that buffer
+  ab : Half := {}
+  ba : Half := {}
+
+def DState.half (s : DState) : Dir → Half
+  | .ab => s.ab
+  | .ba => s.ba
+
+def DState.setHalf (s : DState) (d : Dir) (h : Half) : DState :=
+  match d with
+  | .ab => { s with ab := h }
+  | .ba => { s with ba := h }
+
+inductive DEv where
+  | read (d : Dir) (chunk : List Nat)   -- the source of direction `d` returns `chunk` (nil error) from `Read(buf)`
+  | drain (d : Dir) (k : Nat)           -- the destination of direction `d` consumes the next `k` bytes of the write in flight
+deriving DecidableEq, Repr
+
+/-- what the two goroutines allow next: a copier calls `Read` only when its previous `Write` has returned, a
+`Read` returns at most `len(buf)` bytes, and a destination can only consume what is left of the write in flight -/
+def enabled (s : DState) : DEv → Bool
+  | .read d chunk => !decide ((s.half d).off < (s.half d).nr) && decide (chunk.length ≤ bufferSize)
+  | .drain d k => decide (0 < k) && decide ((s.half d).off + k ≤ (s.half d).nr)
+
+def dstep (bufOf : Dir → Nat) (s : DState) (ev : DEv) : DState :=
+  if enabled s ev then
+    match ev with
+    | .read d chunk =>
+      let i := bufOf d
+      let m := fun j => if j = i then chunk ++ (s.mem i).drop chunk.length else s.mem j     -- nr, er = src.Read(buf)
+      ({ s with mem := m }).setHalf d { s.half d with taken := (s.half d).taken ++ chunk, off := 0, nr := chunk.length }
+    | .drain d k =>
+      let h := s.half d
+      s.setHalf d { h with delivered := h.delivered ++ ((s.mem (bufOf d)).drop h.off).take k, off := h.off + k }
+  else s
+
+/-- all interleavings: any event list; `m0` = what the pooled buffers contain initially (anything) -/
+def drun (bufOf : Dir → Nat) (m0 : Nat → List Nat) (evs : List DEv) : DState :=
+  evs.foldl (dstep bufOf) { mem := m0 }
+
 end Specter.C40
